@@ -12,6 +12,7 @@ From RopeVerif.C10 Require Import FsModel Change Runner.
 From RopeVerif.C11 Require Import History.
 
 Record ostep := {
+  t_setlim : option nat;           (* Some n: the step is "prefs max_history_items := n" (t_op is not looked at) *)
   t_op : op;
   o_raised : bool;
   o_err : list N;                  (* exception chain, class codes of C10.Runner; 50 = ValueError *)
@@ -19,13 +20,16 @@ Record ostep := {
   o_undo : list change;
   o_redo : list change;
   o_deps : list nat;               (* returned changes as positions in the list before the call *)
-  o_irrev : option bool            (* successful do: the harness's own reversibility verdict on its primitives *)
+  o_irrev : option bool            (* successful operation: the harness's own reversibility verdict on its primitives *)
 }.
 
 Record case := {
   c_tree : list (list N * node);
   c_limit : nat;
-  c_ign : list (list N);
+  c_spell : list (N * list N);     (* spelling of the interned path segments *)
+  c_pats : list (list N);          (* prefs["ignored_resources"] *)
+  c_paths : list (list N);         (* the resource paths the session's changes touch ... *)
+  c_ign : list (list N);           (* ... and those of them Project.is_ignored answered True for *)
   c_steps : list ostep
 }.
 
@@ -62,11 +66,14 @@ Definition cmp1 (r : sres) (o : ostep) : N :=
 
 (* 0 = the model agrees with the observation at every step; otherwise 64 * (1 + index of the first
    disagreeing step) + its mismatch bits *)
-Fixpoint walk (bp : bool) (v : variant) (ign : list (list N)) (i : N) (l : list ostep) (s : hist) : N :=
+Fixpoint walk (bp : bool) (v : variant) (ign : list N -> bool) (i : N) (l : list ostep) (s : hist) : N :=
   match l with
   | [] => 0%N
   | o :: rest =>
-      let r := hstep bp v fuel ign (t_op o) s quiet in
+      let r := match t_setlim o with
+               | Some n => SOk (set_limit n s) quiet []
+               | None => hstep bp v fuel ign (t_op o) s quiet
+               end in
       let w := cmp1 r o in
       if N.eqb w 0 then walk bp v ign (i + 1)%N rest (sres_state r)
       else (64 * (i + 1) + w)%N
@@ -74,7 +81,15 @@ Fixpoint walk (bp : bool) (v : variant) (ign : list (list N)) (i : N) (l : list 
 
 Definition init (c : case) : hist := Hist (list_to_map (c_tree c)) [] [] (c_limit c).
 
-Definition report1 (bp : bool) (v : variant) (c : case) : N := walk bp v (c_ign c) 0%N (c_steps c) (init c).
+(* the model's Project.is_ignored *)
+Definition ign_of (c : case) : list N -> bool := ignored_by (c_spell c) (c_pats c).
+
+Definition ign_agrees (c : case) : bool :=
+  forallb (fun p => Bool.eqb (ign_of c p) (existsb (text_eqb p) (c_ign c))) (c_paths c).
+
+(* 1 = the model's is_ignored differs from the code's on some resource of the session *)
+Definition report1 (bp : bool) (v : variant) (c : case) : N :=
+  if ign_agrees c then walk bp v (ign_of c) 0%N (c_steps c) (init c) else 1%N.
 Definition report (bp : bool) (v : variant) (cs : list case) : list N := map (report1 bp v) cs.
 
 (* ------------------------------------------------------------------------ theorem domains *)
@@ -102,10 +117,13 @@ Definition fs_eqb (a b : fs) : bool :=
    undo/redo of a listed change; 4 = in that domain the model's step does NOT end in a Consistent state
    with the same base tree (would contradict the theorems: never expected; after drop=True only the
    undo half of Consistent is claimed);
-   8 = the step is a successful History.do whose forward phase was exactly reversible *)
-Definition dom1 (bp : bool) (v : variant) (ign : list (list N)) (o : op) (s : hist) : N * hist :=
+   8 = the step is a successful History.do whose forward phase was exactly reversible;
+   16 = the state before is Consistent and the step is well-behaved (step_wb): then (bit 4) the state after
+   must be Consistent again (C11_well_behaved_step) *)
+Definition dom1 (bp : bool) (v : variant) (ign : list N -> bool) (o : op) (s : hist) : N * hist :=
   let r := hstep bp v fuel ign o s quiet in
   let s' := sres_state r in
+  let wb := consistentb fuel s && step_wb fuel ign o s in
   let indom := consistentb fuel s
                && (bp || class_ok (resources_list (h_undo s) ++ resources_list (h_redo s))) in
   let sel := indom && is_sel o && listed o s in
@@ -117,26 +135,31 @@ Definition dom1 (bp : bool) (v : variant) (ign : list (list N)) (o : op) (s : hi
             && match base_of s, base_of s' with Some a, Some b => fs_eqb a b | _, _ => false end)
     else false in
   let dook := match o, r with ODo _, SOk _ k' _ => negb (irrev k') | _, _ => false end in
-  ((bit indom 1 + bit sel 2 + bit bad 4 + bit dook 8)%N, s').
+  let bad := bad || (wb && negb (consistentb fuel s')) in
+  ((bit indom 1 + bit sel 2 + bit bad 4 + bit dook 8 + bit wb 16)%N, s').
 
-Fixpoint dom_walk (bp : bool) (v : variant) (ign : list (list N)) (l : list ostep) (s : hist) : list N :=
+Fixpoint dom_walk (bp : bool) (v : variant) (ign : list N -> bool) (l : list ostep) (s : hist) : list N :=
   match l with
   | [] => []
-  | o :: rest => let '(w, s') := dom1 bp v ign (t_op o) s in w :: dom_walk bp v ign rest s'
+  | o :: rest =>
+      match t_setlim o with
+      | Some n => dom_walk bp v ign rest (set_limit n s)
+      | None => let '(w, s') := dom1 bp v ign (t_op o) s in w :: dom_walk bp v ign rest s'
+      end
   end.
 
 (* per case: [number of steps in the domain; number of selective steps in the domain; contradictions;
-   reversible successful do steps] *)
+   reversible successful do steps; well-behaved steps from a Consistent state] *)
 Definition stats1 (bp : bool) (v : variant) (c : case) : list N :=
-  let ws := dom_walk bp v (c_ign c) (c_steps c) (init c) in
+  let ws := dom_walk bp v (ign_of c) (c_steps c) (init c) in
   let cnt (b : N) := N.of_nat (length (filter (fun w => N.testbit w b) ws)) in
-  [cnt 0%N; cnt 1%N; cnt 2%N; cnt 3%N].
+  [cnt 0%N; cnt 1%N; cnt 2%N; cnt 3%N; cnt 4%N].
 
 Definition sum4 (a b : list N) : list N :=
   match a, b with
-  | [a0; a1; a2; a3], [b0; b1; b2; b3] => [a0 + b0; a1 + b1; a2 + b2; a3 + b3]%N
+  | [a0; a1; a2; a3; a4], [b0; b1; b2; b3; b4] => [a0 + b0; a1 + b1; a2 + b2; a3 + b3; a4 + b4]%N
   | _, _ => a
   end.
 
 Definition stats (bp : bool) (v : variant) (cs : list case) : list N :=
-  fold_right (fun c acc => sum4 (stats1 bp v c) acc) [0; 0; 0; 0]%N cs.
+  fold_right (fun c acc => sum4 (stats1 bp v c) acc) [0; 0; 0; 0; 0]%N cs.
